@@ -90,17 +90,41 @@ theorem stage1_props (m : Msg) (sec b1 : Bytes) (ha : m.auth.length = 16) (h : s
         rw [this]; simp
 
 omit hmd5 hhmac in
-/-- `serialize` with a secret, unfolded -/
-theorem serialize_eq (m : Msg) (sec : Bytes) :
-    serialize H m (some sec) =
-      if 20 + attrsSize m > maxLen then .fail
+/-- `serialize` with a secret: when it produces a packet, no Message-Authenticator attribute had a wrong length and the
+    packet is the one computed by the Message-Authenticator step followed by the signature -/
+theorem serialize_eq (m : Msg) (sec : Bytes) (b a' : Bytes) (h : serialize H m (some sec) = .ok b a') :
+    (if 20 + attrsSize m > maxLen then SerRes.fail
       else match stage1 H m sec with
         | none => .fault
         | some b1 =>
           if signedCode m.code then
             .ok (splice b1 4 (H.md5 (b1 ++ sec))) (if m.code = 4 then H.md5 (b1 ++ sec) else m.auth)
-          else .ok b1 m.auth := by
-  unfold serialize; rfl
+          else .ok b1 m.auth) = .ok b a' := by
+  unfold serialize at h
+  split at h
+  · cases h
+  · rename_i hsz
+    simp only at h
+    split at h
+    · cases h
+    · simp only [hsz, if_false]
+      exact h
+
+omit hmd5 hhmac in
+/-- a packet is only produced when every Message-Authenticator attribute has 16 octets -/
+theorem serialize_ok_msgauth_len (m : Msg) (sec : Bytes) (b a' : Bytes) (h : serialize H m (some sec) = .ok b a') :
+    ∀ a ∈ m.attrs, a.t = 80 → a.v.length = 16 := by
+  unfold serialize at h
+  split at h
+  · cases h
+  · simp only at h
+    split at h
+    · cases h
+    · rename_i hany
+      intro a ha ht
+      apply Classical.byContradiction
+      intro hl
+      exact hany (List.any_eq_true.mpr ⟨a, ha, by simp [ht, hl]⟩)
 
 /-- **Length.** Every packet the serializer produces has a length field equal to
     its size, and the size is within 20..4096. -/
@@ -108,7 +132,7 @@ theorem serialize_length (m : Msg) (sec b a' : Bytes) (ha : m.auth.length = 16)
     (h : serialize H m (some sec) = .ok b a') :
     b.length = 20 + attrsSize m ∧ 20 ≤ b.length ∧ b.length ≤ 4096 ∧
     beVal ((b.drop 2).take 2) = b.length := by
-  rw [serialize_eq H] at h
+  replace h := serialize_eq H m sec b a' h
   split at h
   · cases h
   · next hsz =>
@@ -147,7 +171,7 @@ theorem serialize_resp_auth (m : Msg) (sec b a' : Bytes) (ha : m.auth.length = 1
     (hcode : signedCode m.code = true)
     (h : serialize H m (some sec) = .ok b a') :
     respAuthValid H b m.auth sec = true := by
-  rw [serialize_eq H] at h
+  replace h := serialize_eq H m sec b a' h
   split at h
   · cases h
   · cases hs : stage1 H m sec with
@@ -180,7 +204,7 @@ theorem serialize_msgauth (m : Msg) (sec b a' : Bytes) (pos : Nat) (ha : m.auth.
     (hpos : lastMsgAuthPos m.attrs 20 none = some pos)
     (h : serialize H m (some sec) = .ok b a') :
     macOk H (splice b 4 m.auth) pos sec = true := by
-  rw [serialize_eq H] at h
+  replace h := serialize_eq H m sec b a' h
   split at h
   · cases h
   · cases hs : stage1 H m sec with
